@@ -1,4 +1,9 @@
 import StraxModel.Model.Pulse
+/-
+  Lemmas about `record_links` of theory T14 (property C18): the per-channel loop state as a function of the
+  prefix (`stateAt`), the branch taken per record (`decision_spec`), the writes to `next_record`, and the two link
+  specifications.  Core Lean only.
+-/
 namespace Strax.Pulse
 
 /-! ### record_links -/
